@@ -8,7 +8,7 @@ Extraction "model.ml"
   Diff.dmap Diff.apply Diff.ok_in Diff.apply_all Diff.apply_all_ok Diff.spec_nth Diff.oob
   Head.head_init Head.head_on_diff Head.head_update_limit Head.head_view
   Skip.skip_init Skip.skip_init_dynamic Skip.skip_on_diff Skip.skip_update_count Skip.skip_view
-  Tail.tail_init Tail.tail_on_diff Tail.tail_update_limit Tail.tail_view
+  Tail.tail_init Tail.tail_on_diff Tail.tail_update_limit Tail.tail_view Tail.tail_shrink_over_len
   Filter.filter_init Filter.filter_on_diff
-  Sort.sort_init Sort.sort_on_diff Sort.sort_oracle_input Sort.enumerate_from
+  Sort.sort_init Sort.sort_on_diff Sort.sort_oracle_input Sort.enumerate_from Sort.sort_truncate_misaligned
   PollLoop.poll_u PollLoop.poll_b.
